@@ -98,6 +98,13 @@ class Describer:
                 return ("oneof", frozenset(descs | {("?", "elem")}))
         finally:
             self._busy.discard(l)
+        flat = set()
+        for x in descs:
+            if isinstance(x, tuple) and x and x[0] == "oneof":
+                flat |= set(x[1])
+            else:
+                flat.add(x)
+        descs = flat
         roots = {x for x in descs if x != ("self",) and not (isinstance(x, tuple) and x and x[0] == "slice" and x[1] == ("self",))}
         if len(roots) == 1 and len(descs) > 1 and any(isinstance(x, tuple) and x and x[0] == "slice" and x[1] == ("self",) for x in descs):
             return ("cursor", next(iter(roots)))
@@ -168,7 +175,19 @@ class Describer:
         if k == "arg":
             return ("param", e[1])
         if k == "local":
-            return ("idx",) if self.fn.single_def(e[1]) is None else self.num(strip_bb(self.R.local(e[1])))
+            if self.fn.single_def(e[1]) is None:
+                # a variable assigned one of several constants (`if c { K1 } else { K2 }`)
+                vals = set()
+                for (bi, si, st) in self.fn.defs().get(e[1], []):
+                    if si != "term" and st.get("k") == "assign" and not st["place"]["proj"] and st["rv"]["k"] == "use" and st["rv"]["op"].get("k") == "const" and isinstance(st["rv"]["op"].get("val"), int):
+                        vals.add(st["rv"]["op"]["val"])
+                    else:
+                        vals = None
+                        break
+                if vals and len(vals) <= 4:
+                    return ("ints", frozenset(vals))
+                return ("idx",)
+            return self.num(strip_bb(self.R.local(e[1])))
         if k == "place":
             return ("field", self.chain_of(e[1]))
         if k == "okval":
@@ -230,6 +249,13 @@ class Describer:
         if k == "str":
             return ("str", e[1])
         if k == "okval":
+            inner = strip_bb(e[1])
+            if inner[0] == "call" and ((inner[1] or "").endswith("Option::<T>::ok_or") or (inner[1] or "").endswith("Option::<T>::ok_or_else")) and inner[3]:
+                x = self.d(strip_bb(inner[3][0]))
+                if isinstance(x, tuple) and x[0] == "val":
+                    x = x[1]
+                if isinstance(x, tuple) and x[0] == "at" and isinstance(x[1], str):
+                    return ("at", x[1] + ".0")
             return ("ok", self.d(e[1]))
         if k == "call":
             d = e[1] or ""
@@ -240,7 +266,7 @@ class Describer:
                     return ("index", base, self.num(e[3][1]))
                 if r[0] == "full":
                     return base
-                return ("slice", base, self.rng(r))
+                return distribute_ints(("slice", base, self.rng(r)))
             if any(d.endswith(t) for t in TRANSPARENT) and len(e[3]) == 1:
                 return self.d(e[3][0])
             short = "::".join(d.split("::")[-2:])
@@ -258,6 +284,23 @@ class Describer:
         if k == "repeat":
             return ("repeat", self.d(e[1]), e[2])
         return ("?", k)
+
+
+def distribute_ints(desc):
+    """('slice', base, (kind, a + one-of-constants)) is one of the slices with each constant"""
+    if not (isinstance(desc, tuple) and desc[0] == "slice" and isinstance(desc[2], tuple) and len(desc[2]) == 2):
+        return desc
+    kind, bound = desc[2]
+    if isinstance(bound, tuple) and bound and bound[0] == "+" and len(bound) == 3:
+        for i in (1, 2):
+            x, other = bound[i], bound[3 - i]
+            if isinstance(x, tuple) and x and x[0] == "ints":
+                alts = set()
+                for c in x[1]:
+                    nb = other if c == 0 else ("+",) + tuple(sorted([other, c], key=repr))
+                    alts.add(("slice", desc[1], (kind, nb)))
+                return ("oneof", frozenset(alts))
+    return desc
 
 
 def events(fn, G, D, blocks, interface, base_facts=frozenset()):
